@@ -380,6 +380,67 @@ def staleness_programs():
     return out
 
 
+def standalone_bundle_scenarios():
+    """A bundle built on its own — ProvBundle(identifier=...), with registered prefixes and / or a default namespace of its
+    own (set explicitly, or adopted from a prefix-less qualified name) — hands out names and is then attached with
+    document.add_bundle(bundle) to documents with and without a default namespace and with a clashing prefix: every name
+    it handed out before still prints to a string that the bundle resolves to the same URI, its registered prefixes and
+    its default namespace are what they were (clauses (b), (c) across the attachment).  Returns (cases, failures)."""
+    import prov.model as M
+    from prov.identifier import Namespace, QualifiedName
+    A, B, D, E = "http://example.org/a/", "http://example.org/b/", "http://example.org/dflt/", "http://example.org/docdflt/"
+    fails = []
+    n = 0
+    for bundle_default in ("set", "adopted", None):
+        for doc_default in (None, E):
+            for doc_ex in (None, A, B):
+                n += 1
+                b = M.ProvBundle(identifier=QualifiedName(Namespace("ex", A), "bundle1"))
+                b.add_namespace("ex", A)
+                if bundle_default == "set":
+                    b.set_default_namespace(D)
+                handed = []
+                for x in ("ex:e1", QualifiedName(Namespace("ex", A), "e2"), QualifiedName(Namespace("other", B), "e3")):
+                    handed.append(b.valid_qualified_name(x))
+                if bundle_default == "adopted":
+                    handed.append(b.valid_qualified_name(QualifiedName(Namespace("", D), "thing")))
+                if bundle_default:
+                    handed.append(b.valid_qualified_name("bare"))
+                b.entity("ex:e1")
+                before_regs = sorted((x.prefix, x.uri) for x in b.namespaces)
+                before_dflt = b.get_default_namespace().uri if b.get_default_namespace() is not None else None
+                d = M.ProvDocument()
+                if doc_default:
+                    d.set_default_namespace(doc_default)
+                if doc_ex:
+                    d.add_namespace("ex", doc_ex)
+                case = {"bundle_default": bundle_default, "document_default": doc_default, "document_ex": doc_ex}
+                try:
+                    d.add_bundle(b)
+                except Exception as e:
+                    fails.append(dict(case, clause="b", what="add_bundle(stand-alone bundle) raised", exc=repr(e)[:200]))
+                    continue
+                after_regs = sorted((x.prefix, x.uri) for x in b.namespaces)
+                after_dflt = b.get_default_namespace().uri if b.get_default_namespace() is not None else None
+                if not set(before_regs) <= set(after_regs):
+                    fails.append(dict(case, clause="b", what="attaching a bundle re-pointed or dropped one of its registered prefixes",
+                                      before=before_regs, after=after_regs))
+                if after_dflt != before_dflt:
+                    fails.append(dict(case, clause="c", what="attaching a bundle changed its default namespace", before=before_dflt, after=after_dflt))
+                for q in handed:
+                    if q is None:
+                        continue
+                    try:
+                        r = b.valid_qualified_name(str(q))
+                    except Exception:
+                        r = None
+                    if r is None or r.uri != q.uri:
+                        fails.append(dict(case, clause="c", what="a name the bundle handed out before it was attached no longer resolves to its URI there",
+                                          printed=str(q), uri=q.uri, now=(r.uri if r is not None else None)))
+                        break
+    return n, fails
+
+
 def near_uri_programs():
     """fixed family: two namespace URIs that differ only at the very end (a trailing '#', '/', a final letter, letter
     case) under one prefix and under two, in both orders, in a document and in a bundle: they are different namespaces —
@@ -510,6 +571,14 @@ def run(tier, seed, log, model_runs=True, enlarged=False):
                 d = first_diff(obs, loads(model_lines[i]))
                 disagreements.append({"program": p, "first_difference": d})
 
+    try:
+        nsb, sbfails = standalone_bundle_scenarios()
+    except Exception as e:
+        import traceback
+        nsb, sbfails = 0, [{"clause": "c", "what": "harness error in standalone_bundle_scenarios", "detail": traceback.format_exc()[-800:]}]
+    log("stand-alone bundles attached with add_bundle: %d scenarios, %d failures" % (nsb, len(sbfails)))
+    for f in sbfails[:3]:
+        violations.append({"kind": "failing-input", "failure": f, "program": [["(direct scenario, see failure)"]]})
     # shrink what we found (bounded effort)
     def shrink_violation(v):
         cl = v.get("clause")
